@@ -46,26 +46,19 @@ Theorem C19_checker_messages_have_position : forall E b es e,
 Proof. exact checker_messages_have_position. Qed.
 Print Assumptions C19_checker_messages_have_position.
 
-(* Full statement "no reported line lies outside the file" (every message has a position):
-   false of the faithful model — the visitor's "Array length has to be specified by an
-   integer" is printed with the default line 0 (known finding D21) … *)
-Theorem C19_every_message_has_a_position_refuted : ~ C19_every_message_has_a_position.
-Proof. exact not_every_message_has_a_position. Qed.
-Print Assumptions C19_every_message_has_a_position_refuted.
+(* "No reported line lies outside the file": every message of every program carries a
+   position (no message is printed with the default line 0).  History: the visitor's "Array
+   length has to be specified by an integer" was printed without a context (finding D21,
+   repaired in /repo); the former _refuted witness now reads: *)
+Theorem C19_every_message_has_a_position : forall p es e,
+  validate p = Ok es -> In e es -> snd e <> CNone.
+Proof. exact every_message_has_a_position. Qed.
+Print Assumptions C19_every_message_has_a_position.
 
-Theorem C19_refuted_array_length_message : validate w_D21_array_length_by_name = Ok [(KArrayLen, CNone)].
-Proof. exact arraylen_without_line. Qed.
-Print Assumptions C19_refuted_array_length_message.
-
-(* … and true when no array length is given by a name. *)
-Theorem C19_every_message_has_a_position_partial : forall p es e,
-  sh_lenvar p = false -> validate p = Ok es -> In e es -> snd e <> CNone.
-Proof. exact messages_have_position_without_lenvar. Qed.
-Print Assumptions C19_every_message_has_a_position_partial.
-
-Theorem C19_guard_inhabited : sh_lenvar w_good_small = false /\ sh_lenvar w_D21_array_length_by_name = true.
-Proof. exact lenvar_guard_inhabited. Qed.
-Print Assumptions C19_guard_inhabited.
+Theorem C19_array_length_message_has_position :
+  validate w_D21_array_length_by_name = Ok [(KArrayLen, CStructAttr 2 1)].
+Proof. exact arraylen_with_position. Qed.
+Print Assumptions C19_array_length_message_has_position.
 
 (* a fault three levels deep is reported at the position of the offending call *)
 Theorem C19_example_deep_position : validate w_unknown_task = Ok [(KUnknownTask, CStmt 0 [1; 0; 0; 1])].
